@@ -12,7 +12,7 @@ from checks.common import run_harness
 _cache = {}
 
 
-def markup_events(ctx, res):
+def markup_events(ctx, res, small=False):
     if ctx.pid in _cache:
         return _cache[ctx.pid]
     q = ctx.quick
@@ -26,8 +26,8 @@ def markup_events(ctx, res):
         import random
         rnd = random.Random(ctx.seed)
         rnd.shuffle(docs)
-        docs = docs[:450]
-    evs, _, _ = run_harness(ctx, "pub", "TestVerifMarkup", {"docs": docs, "widths": widths, "random": 150 if q else 3000}, timeout=2400)
+        docs = docs[:120 if small else 450]
+    evs, _, _ = run_harness(ctx, "pub", "TestVerifMarkup", {"docs": docs, "widths": widths, "random": (60 if small else 150) if q else (600 if small else 3000)}, timeout=2400)
     res.extra["documents_from_tlc"] = len(docs)
     res.extra["width_sequences_from_tlc"] = len(widths)
     _cache[ctx.pid] = evs
